@@ -59,13 +59,21 @@ pub struct Chip {
     pub hits: Vec<Hit>,
     /// readout flags of the trailer (4 bits)
     pub flags: u8,
-    /// 0x00 padding bytes in front of this chip's data (between chip frames padding is legal)
+    /// 0x00 padding bytes in front of this chip's data (between chip frames padding is legal): the low six bits are
+    /// the number of padding bytes; 0x40 puts a BUSY ON word, 0x80 a BUSY OFF word in front of that padding (busy
+    /// words may occur between chip frames as well as inside them)
     pub pad_before: u8,
 }
 
 impl Chip {
     pub fn encode(&self, out: &mut Vec<u8>) {
-        for _ in 0..self.pad_before {
+        if self.pad_before & 0x40 != 0 {
+            out.push(0xF1);
+        }
+        if self.pad_before & 0x80 != 0 {
+            out.push(0xF0);
+        }
+        for _ in 0..(self.pad_before & 0x3F) {
             out.push(0x00);
         }
         if self.empty {
